@@ -113,7 +113,9 @@ ReadRes(k, acc, attr, r) ==
   LET s == RangeSpec(r)
       bad == [st |-> "Bad", fail |-> FALSE, v |-> V("None", FALSE, <<>>)]
   IN IF k = "none" \/ ~AttrKnown(attr) \/ s.k = "bad" THEN bad
-     ELSE IF attr # "Value" THEN (IF s.k # "none" THEN bad ELSE [st |-> "Good", fail |-> FALSE, v |-> V("Other", FALSE, <<>>)])
+     ELSE IF attr # "Value" THEN (IF s.k # "none" THEN bad
+                                  ELSE [st |-> "Good", fail |-> FALSE,
+                                        v |-> IF attr = "AccessLevel" THEN V("Byte", FALSE, <<IF acc = "ro" THEN 1 ELSE 3>>) ELSE V("Other", FALSE, <<>>)])
      ELSE RangeOf(Cur(k, acc), r)
 
 \* AttributeService::validate_value_to_write
